@@ -24,14 +24,14 @@ def _kids(st, p):
     return st["top"] if p == 0 else st["kids"][p - 1]
 
 
-def random_pos(st, p, rng, allow_bad=False):
+def random_pos(st, p, rng, allow_bad=False, oob=True):
     kids = _kids(st, p)
     r = rng.random()
     if r < 0.25 or not kids:
         return rng.choice([POS_NONE, {"t": "true", "v": 0}, {"t": "false", "v": 0}, {"t": "idx", "v": 0}])
     if r < 0.52:
         return {"t": "idx", "v": rng.randrange(0, len(kids) + 1)}
-    if r < 0.55:
+    if r < 0.55 and oob:
         return {"t": "idx", "v": len(kids) + rng.randint(1, 2)}   # beyond the end: appended or refused-unchanged
     if r < 0.95 or not allow_bad:
         return {"t": "node", "v": rng.choice(kids)}
@@ -86,7 +86,8 @@ def random_op(st, rng: random.Random, *, D, typed=False, kinds=(0,), xids=(0,), 
             p = rng.choice(parents)
             v = rng.random()
             if v < 0.5:
-                return {"name": "add_tree", "p": p, "deep": rng.random() < 0.6, "pos": random_pos(st, p, rng)}
+                # (an int position beyond the list is not driven for add(tree): the order of the added nodes is doc-silent)
+                return {"name": "add_tree", "p": p, "deep": rng.random() < 0.6, "pos": random_pos(st, p, rng, oob=False)}
             if v < 0.7:
                 return {"name": "tree_copy_to", "p": p, "deep": rng.random() < 0.6}
             if live:
